@@ -29,7 +29,7 @@ def frameFallThrough : Bool := true
 
 /-- `_receive_message`'s catch-all handler answers only requests (false on the
     pinned tree, which also "answered" a received answer whose handling raised). -/
-def answerOnlyRequests : Bool := false
+def answerOnlyRequests : Bool := true
 
 /-- The capabilities-exchange gate also drops everything received on a
     CLOSING / CLOSED connection (false on the pinned tree). -/
